@@ -378,6 +378,7 @@ func (t *Teamserver) Start() {
 			HandlerData.HostHeader, _ = Data["HostHeader"].(string)
 			HandlerData.WorkingHours, _ = Data["WorkingHours"].(string)
 			HandlerData.Methode, _ = Data["Methode"].(string)
+			HandlerData.KillDate = storedKillDate(listener["Config"])
 
 			HandlerData.Secure = false
 			if Data["Secure"].(string) == "true" {
@@ -450,6 +451,7 @@ func (t *Teamserver) Start() {
 			}
 
 			HandlerData.PipeName = Data["PipeName"].(string)
+			HandlerData.KillDate = storedKillDate(listener["Config"])
 
 			if err := t.ListenerStart(handlers.LISTENER_PIVOT_SMB, HandlerData); err != nil && err.Error() != "listener already exists" {
 				logger.SetStdOut(os.Stderr)
@@ -498,6 +500,20 @@ func (t *Teamserver) Start() {
 
 	verifhook.Point("server.ready")
 	<-ServerFinished
+}
+
+// storedKillDate reads the kill date of a stored listener config. It is a 64 bit integer
+// that does not fit a float64, so it is not taken from the generic map.
+func storedKillDate(Config string) int64 {
+	var Stored struct {
+		KillDate int64
+	}
+
+	if err := json.Unmarshal([]byte(Config), &Stored); err != nil {
+		return 0
+	}
+
+	return Stored.KillDate
 }
 
 func (t *Teamserver) handleRequest(id string) {
